@@ -59,7 +59,7 @@ def generate(rng, tier) -> dict:
     k = rng.choice([1, n - 1, rng.randint(1, max(1, n - 1))]) if n >= 2 else 0
     return {"n": n, "nchans": nch, "mode": rng.choice(["basic", "full"]), "family": rng.choice(FAMILIES),
             "dseed": rng.randrange(1 << 30), "chunks": composition(rng, n), "k": k,
-            "chunks_a": composition(rng, k), "chunks_b": composition(rng, n - k), "order": rng.choice(["ab", "ba"])}
+            "chunks_a": composition(rng, k), "chunks_b": composition(rng, n - k), "order": rng.choice(["ab", "ba", "a+=b", "b+=a"])}
 
 
 def _fix(parts, total):
@@ -237,7 +237,17 @@ def execute(sc, ctx) -> None:
             ctx.probe("merge-k=1")
         if k == n - 1:
             ctx.probe("merge-k=n-1")
-        if sc["order"] == "ba":
+        inplace = "+=" in sc["order"]
+        if inplace:
+            # augmented assignment: `x += y` must give what `x + y` gives (whether or not the class defines __iadd__)
+            ctx.probe("merge-by-augmented-assignment")
+            left, right = (a, b) if sc["order"] == "a+=b" else (b, a)
+            before_right = right.moments.copy()
+            merged = left
+            merged += right
+            if right.moments.tobytes() != before_right.tobytes():
+                raise Violation(f"C10/merge/operand-modified/{mode}", "x += y changed y", {"api": "merge", "order": sc["order"]})
+        elif sc["order"] == "ba":
             ctx.probe("order:ba")
             merged = b + a
             if (n - k) - k < 0:
@@ -251,13 +261,14 @@ def execute(sc, ctx) -> None:
             raise Violation(f"C10/merge/nsamps/{mode}", f"{merged.nsamps} != {n}", {"api": "merge"})
         m = readout(merged, mode)
         check("merge", m, tr, mode, sc, ctx)
-        # adding two accumulators must leave both operands as they were (they may be merged again)
-        if a.moments.tobytes() != before_a.tobytes() or b.moments.tobytes() != before_b.tobytes():
-            raise Violation(f"C10/merge/operand-modified/{mode}", "a + b changed a or b", {"api": "merge"})
-        # ... and merging is repeatable: the same operands give the same sum again
-        again = readout((b + a) if sc["order"] == "ba" else (a + b), mode)
-        for kk in m:
-            if np.asarray(m[kk]).tobytes() != np.asarray(again[kk]).tobytes():
-                raise Violation(f"C10/merge/not-repeatable/{mode}", kk, {"api": "merge"})
-        ctx.probe("merge-repeated")
+        if not inplace:
+            # adding two accumulators must leave both operands as they were (they may be merged again)
+            if a.moments.tobytes() != before_a.tobytes() or b.moments.tobytes() != before_b.tobytes():
+                raise Violation(f"C10/merge/operand-modified/{mode}", "a + b changed a or b", {"api": "merge"})
+            # ... and merging is repeatable: the same operands give the same sum again
+            again = readout((b + a) if sc["order"] == "ba" else (a + b), mode)
+            for kk in m:
+                if np.asarray(m[kk]).tobytes() != np.asarray(again[kk]).tobytes():
+                    raise Violation(f"C10/merge/not-repeatable/{mode}", kk, {"api": "merge"})
+            ctx.probe("merge-repeated")
         ctx.log("merge", k, sc["order"], [float(v) for v in m["mean"]])
